@@ -51,6 +51,7 @@ def run(ctx, rec):
         drive(ctx, rec, corpus.exec_defined(ctx, rng, 3 if q else 9))
         drive(ctx, rec, corpus.conflicting_externals(ctx, rng, 2 if q else 6))
         drive(ctx, rec, corpus.equal_valued_params(ctx, rng, 4 if q else 20))
+        drive(ctx, rec, corpus.twin_externals(ctx, rng, 1 if q else 3))
     drive(ctx, rec, corpus.collision_designs(ctx, rng, 260 if q else 2000))
     gens = list(corpus.generated_designs(ctx, rng, 600 if q else 6400, depth=2 if q else 3))
     if ctx.nshards > 1:
